@@ -7,7 +7,6 @@
 
 import contextlib
 import logging
-import sys
 from typing import Optional
 
 import click
@@ -110,7 +109,10 @@ def spdx(
         if output is not None:
             out = stack.enter_context(output.open())  # type: ignore
         else:
-            out = sys.stdout
+            # An SPDX document is UTF-8, whatever the encoding of the locale.
+            out = click.get_text_stream(
+                "stdout", encoding="utf-8", errors="surrogateescape"
+            )
         click.echo(
             report.bill_of_materials(
                 creator_person=creator_person,
